@@ -9,7 +9,6 @@ macro_rules! dec { ($e:literal) => { Decimal::from($e as i64) }; }
 verus! {
 /*@include shims/rt.rs @*/
 /*@include shims/decimal.rs @*/
-/*@include shims/bigint.rs @*/
 /*@include shims/decimal_validator_ext.rs @*/
 
 pub mod env {
@@ -101,7 +100,6 @@ pub mod unit {
     use super::env::*;
     use super::decimal::*;
     use super::decimal::Decimal;
-    use super::bigint::I192;
     use super::decimal_validator_ext::*;
     broadcast use group_decimal;
 
@@ -166,6 +164,116 @@ pub mod unit {
         vstd::arithmetic::div_mod::lemma_div_denominator(stake, 100000, e18());
         assert(0 <= a / e18() <= a) by (nonlinear_arith) requires a >= 0;
     }
+
+    // ---------------------------------------------------------------- lemmas: value is never created
+    /// r*D <= u*q  and  q*s <= t*D  (two floor steps)  ==>  r*s <= u*t   (the result never exceeds the exact share)
+    pub proof fn lemma_chain(r: int, u: int, q: int, s: int, t: int, d: int)
+        requires r >= 0, u >= 0, q >= 0, s >= 0, t >= 0, d > 0, r * d <= u * q, q * s <= t * d
+        ensures r * s <= u * t
+    {
+        assert((r * d) * s <= (u * q) * s) by (nonlinear_arith) requires r * d <= u * q, s >= 0;
+        assert(u * (q * s) <= u * (t * d)) by (nonlinear_arith) requires q * s <= t * d, u >= 0;
+        assert((r * d) * s == (r * s) * d) by (nonlinear_arith);
+        assert((u * q) * s == u * (q * s)) by (nonlinear_arith);
+        assert(u * (t * d) == (u * t) * d) by (nonlinear_arith);
+        assert(r * s <= u * t) by (nonlinear_arith) requires (r * s) * d <= (u * t) * d, d > 0;
+    }
+    /// fdiv / fmul on non-negative operands are floors
+    pub proof fn lemma_fdiv_floor(a: int, b: int)
+        requires a >= 0, b > 0
+        ensures fdiv(a, b) >= 0, fdiv(a, b) * b <= a * e18(), fdiv(a, b) == (a * e18()) / b
+    {
+        assert(a * e18() >= 0) by (nonlinear_arith) requires a >= 0;
+        let n = a * e18();
+        assert(0 <= (n / b) * b <= n) by (nonlinear_arith) requires n >= 0, b > 0;
+        assert(n / b >= 0) by (nonlinear_arith) requires n >= 0, b > 0;
+    }
+    pub proof fn lemma_fmul_floor(a: int, b: int)
+        requires a >= 0, b >= 0
+        ensures fmul(a, b) >= 0, fmul(a, b) * e18() <= a * b, fmul(a, b) == (a * b) / e18()
+    {
+        assert(a * b >= 0) by (nonlinear_arith) requires a >= 0, b >= 0;
+        let n = a * b;
+        assert(0 <= (n / e18()) * e18() <= n) by (nonlinear_arith) requires n >= 0;
+        assert(n / e18() >= 0) by (nonlinear_arith) requires n >= 0;
+    }
+    /// "Staking mints stake units in proportion to the validator's stake": never MORE than the exact proportion x*S/T
+    pub proof fn lemma_stake_units_pro_rata(x: int, t: int, s: int)
+        requires x >= 0, t >= 0, s >= 0
+        ensures stake_units(x, t, s) >= 0, t > 0 ==> stake_units(x, t, s) * t <= x * s
+    {
+        if t > 0 {
+            lemma_fdiv_floor(s, t);
+            lemma_fmul_floor(x, fdiv(s, t));
+            lemma_chain(stake_units(x, t, s), x, fdiv(s, t), t, s, e18());
+        }
+    }
+    /// "unstaking never yields more XRD than the units' proportional share" u*T/S; with u <= S the vault is never overdrawn
+    pub proof fn lemma_redemption_pro_rata(u: int, t: int, s: int)
+        requires u >= 0, t >= 0, s >= 0
+        ensures redemption(u, t, s) >= 0,
+                redemption(u, t, s) * s <= u * t,
+                u <= s ==> redemption(u, t, s) <= t,
+    {
+        if s > 0 {
+            lemma_fdiv_floor(t, s);
+            lemma_fmul_floor(u, fdiv(t, s));
+            let r = redemption(u, t, s);
+            lemma_chain(r, u, fdiv(t, s), s, t, e18());
+            if u <= s {
+                assert(u * t <= s * t) by (nonlinear_arith) requires u <= s, t >= 0;
+                assert(r <= t) by (nonlinear_arith) requires r * s <= s * t, s > 0;
+            }
+        } else {
+            assert(redemption(u, t, s) * s == 0) by (nonlinear_arith) requires s == 0;
+            assert(u * t >= 0) by (nonlinear_arith) requires u >= 0, t >= 0;
+        }
+    }
+    /// C42 core: staking x XRD into a validator holding T XRD against S units and immediately unstaking the
+    /// minted units (the vault then holds T + x against S + units) never returns more than x.
+    pub proof fn lemma_stake_then_unstake(x: int, t: int, s: int)
+        requires x >= 0, t >= 0, s >= 0
+        ensures ({
+            let u = stake_units(x, t, s);
+            0 <= redemption(u, t + x, s + u) <= x
+        })
+    {
+        let u = stake_units(x, t, s);
+        lemma_stake_units_pro_rata(x, t, s);
+        let t2 = t + x; let s2 = s + u;
+        lemma_redemption_pro_rata(u, t2, s2);
+        let r = redemption(u, t2, s2);
+        if s2 > 0 {
+            // u*T <= x*S  (for T == 0: u == x and 0 <= x*S)
+            assert(u * t <= x * s) by {
+                if t == 0 { assert(u * t == 0) by (nonlinear_arith) requires t == 0; assert(x * s >= 0) by (nonlinear_arith) requires x >= 0, s >= 0; }
+            }
+            assert(u * t2 <= x * s2) by (nonlinear_arith) requires u * t <= x * s, t2 == t + x, s2 == s + u;
+            assert(r <= x) by (nonlinear_arith) requires r * s2 <= u * t2, u * t2 <= x * s2, s2 > 0;
+        }
+    }
+
+    // ---------------------------------------------------------------- lemmas: sort prefix
+    /// ascending byte-lexicographic order of the stored prefix == descending stake (in 100k buckets), saturating at the top
+    pub proof fn lemma_sort_prefix_order(s1: int, s2: int)
+        requires 0 <= s1 <= s2
+        ensures 0 <= sort_prefix(s2) <= sort_prefix(s1) <= 0xffff,
+                s1 < 100_000 * e18() ==> sort_prefix(s1) == 0xffff,
+                s2 >= 0xffff * (100_000 * e18()) ==> sort_prefix(s2) == 0,
+                s1 + 100_000 * e18() <= s2 && s1 < 0xffff * (100_000 * e18()) ==> sort_prefix(s2) < sort_prefix(s1),
+    {
+        let d = 100_000 * e18();
+        vstd::arithmetic::div_mod::lemma_div_is_ordered(s1, s2, d);
+        assert(s1 / d >= 0) by (nonlinear_arith) requires s1 >= 0, d > 0;
+        assert(s1 < d ==> s1 / d == 0) by (nonlinear_arith) requires s1 >= 0, d > 0;
+        assert(s2 >= 0xffff * d ==> s2 / d >= 0xffff) by (nonlinear_arith) requires d > 0;
+        assert(s1 < 0xffff * d ==> s1 / d < 0xffff) by (nonlinear_arith) requires d > 0, s1 >= 0;
+        assert(s1 + d <= s2 ==> s1 / d + 1 <= s2 / d) by (nonlinear_arith) requires d > 0, s1 >= 0;
+    }
+    pub proof fn lemma_be16_lex(a: [u8; 2], b: [u8; 2])
+        ensures lex_le(a, b) <==> be16(a) <= be16(b),
+                be16(a) == be16(b) ==> a@ =~= b@,
+    {}
 
     pub proof fn lemma_trunc_q_is_tdiv(a: int, b: int)
         requires b != 0
